@@ -52,6 +52,15 @@ CHECKS["C10"] = dict(
           "calls) plus brute-force oracles; no theorem for them yet (partial)."),
     design="6/C10", technique="Coq proof (structural + counting lemmas, ring) + vm_compute correspondence over flip patterns")
 
+CHECKS["C11"] = dict(
+    text=("Theorems about the Gallina model of refine_ for every mesh (any topology): old vertices are an unchanged prefix; the edge "
+          "list is duplicate-free and contains every edge, the k-th new vertex is the midpoint of the k-th edge, vertex count grows by "
+          "the edge count; triangle count quadruples, children follow parent order and use the midpoint vertices of their parent's edges; "
+          "each child has exactly a quarter of the parent's cross product (same plane and winding; areas sum), children's cones sum to "
+          "the parent's (volume) and centres sum (centroid); refine(a+b) = refine b . refine a. Preservation of Euler characteristic, "
+          "closedness, manifoldness, orientedness, loop count and 'adjacency rebuilt' are decided by correspondence + oracles (partial)."),
+    design="6/C11", technique="Coq proof (list lemmas, field identities) + vm_compute correspondence incl. exhaustive 4-vertex complexes")
+
 NOT_YET = {}
 
 
